@@ -3,7 +3,8 @@
     pass the certificates for the same constraint lists accept each pattern
     under exactly the same valuations, whatever answers the heuristic gave. *)
 From PM Require Import Model.Prelude Model.Domain Model.Automaton
-  Model.Traversal Model.DomString Model.DomMatrix Cert.LabCheck Cert.WinCheck Proofs.AbsEquiv Proofs.StringExact Proofs.MatrixExact Properties.C03.
+  Model.Traversal Model.DomString Model.DomMatrix Cert.LabCheck Cert.WinCheck Proofs.AbsEquiv Proofs.StringExact Proofs.MatrixExact Properties.C03
+  Model.DomPGKeys Model.DomPG Cert.WfCheck Cert.PGCert Cert.D10Witness.
 
 Theorem c04_heuristic_independent_acceptance :
   forall (K V M H P : Type) (D : DomOps K V M H P), DomEq D ->
@@ -53,6 +54,22 @@ Proof.
            C1 C2 R1 R2 Hp Hpr Hp Hpr).
 Qed.
 
+(** Port graphs: heuristic independence of the *run* is refuted on the faithful
+    model (known finding D10): both dumped automata pass all certificates, the
+    runs differ.  (Acceptance in the abstract semantics does agree:
+    c04_heuristic_independent_acceptance applies to them.) *)
+Theorem c04_portgraph_runs_differ_refuted :
+  wf_check pg_dom d10_default (compute_rank d10_default) [0; 1]%N = true
+  /\ wf_check pg_dom d10_never (compute_rank d10_never) [0; 1]%N = true
+  /\ lab_ok pg_dom (fun _ => true) pg_atoms d10_default (compute_lab pg_dom pg_atoms d10_default) d10_css = true
+  /\ lab_ok pg_dom (fun _ => true) pg_atoms d10_never (compute_lab pg_dom pg_atoms d10_never) d10_css = true
+  /\ cert_complete pg_entails pg_refutes d10_default d10_css d10_present = true
+  /\ cert_complete pg_entails pg_refutes d10_never d10_css d10_present = true
+  /\ run pg_dom 2000 d10_default d10_host = Ok []
+  /\ exists m, run pg_dom 2000 d10_never d10_host = Ok [(1%N, m)].
+Proof. vm_compute. repeat split; eauto. Qed.
+
 Print Assumptions c04_heuristic_independent_acceptance.
+Print Assumptions c04_portgraph_runs_differ_refuted.
 Print Assumptions c04_matrix_runs_agree.
 Print Assumptions c04_string_runs_agree.
